@@ -1,17 +1,35 @@
 import Sebuf.Lemmas.Conc
+import Sebuf.Gen.Globals
 /-!
 # C17 — a request's outcome does not depend on other requests, concurrent or earlier
 
 `Sebuf.Conc` is an interleaving model of the generated Go server: the only state shared between
 calls is the validator cell behind `sync.Once`; every call is three atomic steps. `isolation`
-quantifies over ALL schedules. The facts that make the model the right one (no other
-package-level variable is written outside `sync.Once`/`init`, route closures capture their
-configuration by value, client RPC methods never write client fields) are regenerated from the
-emitted Go on every run into `Gen.Globals` and decided in `Props/C17Facts`.
+quantifies over ALL schedules. The facts that make the model the right one are regenerated from
+the EMITTED Go (go-http with the mock file, go-client, a probe schema with three services in one
+package) on every run into `Sebuf.Gen.Globals` by `harness/cmd/extract/globals.go` and decided
+here:
+
+* `shared_state_is_once`: every write to a package-level variable sits inside the func literal
+  passed to `validatorOnce.Do` (or in `init`), the written variables are the validator cell, and
+  the only method ever called on a package-level variable is `validatorOnce.Do`;
+* `routes_share_no_config`: no func literal captures a variable its enclosing function assigns
+  more than once; the reused `methodHeaders` variable of `Register*Server` only ever occurs as an
+  assignment target or as a by-value call argument; executing `Register*Server` symbolically,
+  every route was built from the header getter and the path / query tables named after ITS OWN
+  RPC; patterns and (service, RPC) pairs are pairwise distinct;
+* `client_fields_readonly`: no method of a generated client struct writes through its receiver
+  (fields, maps and slices reachable from it, local aliases included); per-call option functions
+  are applied to a composite literal created in the call; header writes go to the request
+  created in the call.
 
 Partial by nature: a data race is a property of the Go memory model which this step machine
-does not have; `race_run` builds the emitted package with `-race` and compares parallel with
-isolated executions.
+does not have. The harness check (`harness/props/c17.go`) builds the emitted package with
+`-race`, runs random call multisets through ONE shared generated client per service against ONE
+shared generated mux at parallelism 1, 2, 4, 16, compares every call with the same call issued
+alone on a fresh process, and compares the headers each call carries and the server's dispatch
+decision with this model (driver op `c17_calls` over `Conc.requestHeadersOrd` and
+`Headers.violations`); any race report is a violation.
 -/
 namespace Sebuf.C17
 open Sebuf.Conc
@@ -52,5 +70,79 @@ theorem shared_write_breaks_isolation :
     ∃ (inputs : List Nat) (sched₁ sched₂ : List Nat), completeN sched₁ inputs.length ∧ completeN sched₂ inputs.length ∧
       resultsBad () (fun a b (_ : Unit) => a + b) sched₁ inputs ≠ resultsBad () (fun a b (_ : Unit) => a + b) sched₂ inputs :=
   bad_model_not_isolated
+
+
+/-! ## Facts regenerated from the emitted Go (`Sebuf.Gen.Globals`) -/
+
+open Sebuf.Gen.Globals in
+/-- **the validator cell is the only shared mutable state, and it is written under `sync.Once`
+only**: no write to a package-level variable of the emitted package sits outside a
+`sync.Once.Do` literal or `init`; every write there is is to `validator` / `validatorErr` under
+`validatorOnce`; and `validatorOnce.Do` is the only method called on a package-level variable.
+This is the shape `Conc.stepOne` transcribes (step 0 = fill-and-read the cell atomically). -/
+theorem shared_state_is_once :
+    writesOutsideOnceOrInit = [] ∧
+    (∀ w ∈ globalWrites, w.2.2.2.1 = "once:validatorOnce" ∧ (w.1 = "validator" ∨ w.1 = "validatorErr")) ∧
+    globalWrites ≠ [] ∧
+    onceVars = ["validatorOnce"] ∧
+    (∀ c ∈ globalMethodCalls, c.1 = "validatorOnce" ∧ c.2.1 = "Do") := by
+  decide
+
+open Sebuf.Gen.Globals in
+/-- **per-route configuration is never shared between routes**: no closure captures a variable
+that its enclosing function re-assigns; the re-assigned `methodHeaders` local of
+`Register*Server` is only ever assigned or passed by value; and each registered route holds the
+header getter, path table and query table of its own RPC (symbolic execution of the emitted
+`Register*Server` bodies, so a hoisted or stale `methodHeaders` would show here). -/
+theorem routes_share_no_config :
+    sharedCaptures = [] ∧
+    (∀ u ∈ reassignedUses, u.2.2 = "assigned" ∨ u.2.2 = "call-argument-by-value") ∧
+    (∀ r ∈ routes, r.methodHeadersOwner = r.method ∧ r.pathParamsOwner = r.method ∧
+                   r.queryParamsOwner = r.method) ∧
+    (routes.map fun r => (r.register, r.method)).Nodup ∧
+    (routes.map (·.pattern)).Nodup ∧
+    generatorAssignsMethodHeadersPerIteration = true := by
+  decide
+
+open Sebuf.Gen.Globals in
+/-- **an RPC only reads the client**: no method of a generated client struct writes through its
+receiver; per-call options are applied to an object created in the call; headers are written to
+the request created in the call. This is `Conc.rpc` (and not `Conc.rpcBad`). -/
+theorem client_fields_readonly :
+    clientFieldWritesInRpc = [] ∧
+    (∀ t ∈ perCallOptionTargets, t.2.2.1 = "fresh-composite-literal") ∧
+    (∀ t ∈ headerWriteTargets, t.2.2.1 = "request-created-in-method") := by
+  decide
+
+/-- non-vacuity of the three fact theorems: the probe really has several services with at least
+three RPCs each, routes were read for every RPC, every RPC has a client method whose option and
+header targets were found. -/
+example : 2 ≤ Sebuf.Gen.Globals.probeServices.length ∧
+    (∀ s ∈ Sebuf.Gen.Globals.probeServices, 3 ≤ s.2) ∧
+    Sebuf.Gen.Globals.routes.length = (Sebuf.Gen.Globals.probeServices.map (·.2)).sum ∧
+    (Sebuf.Gen.Globals.clientMethods.filter (·.2.2 = "rpc")).length = Sebuf.Gen.Globals.routes.length ∧
+    Sebuf.Gen.Globals.perCallOptionTargets.length = Sebuf.Gen.Globals.routes.length ∧
+    Sebuf.Gen.Globals.headerWriteTargets.length = Sebuf.Gen.Globals.routes.length ∧
+    3 ≤ Sebuf.Gen.Globals.reassignedInRegister.length := by
+  decide
+
+/-- what the writing client would do (`Conc.rpcBad`, the shape `client_fields_readonly` excludes):
+call 0's per-call option reaches call 1, which passed none. -/
+theorem client_write_breaks_locality :
+    ∃ (defaults : Headers) (opts : List Headers) (i j : Nat),
+      i < opts.length ∧ j < opts.length ∧ i ≠ j ∧
+      requestHeadersBad defaults opts j ≠ applyHeaders defaults (opts.getD j []) ∧
+      hget "X-Trace" (requestHeadersBad defaults opts j) = hget "X-Trace" (opts.getD i []) :=
+  call_options_leak_bad
+
+/-- per-call options are local in ANY order of issue (sequences: A with options, then B without;
+or B first): the headers of call `i` are the defaults overridden by its own options. -/
+theorem call_options_local_any_order (order : List Nat) (defaults : Headers) (opts : List Headers)
+    (i : Nat) (hi : i ∈ order) :
+    requestHeadersOrd rpc order defaults opts i = some (applyHeaders defaults (opts.getD i [])) :=
+  call_options_local_ord order defaults opts i hi
+
+example : requestHeadersOrd rpc [1, 0] [("Accept", "a")] [[("X-Trace", "abc")], []] 1 = some [("Accept", "a")] := by
+  decide
 
 end Sebuf.C17
